@@ -243,6 +243,69 @@ def _extras():
     return [(GEO, "int", sym_int)]
 
 
+TILTS = {"slope": (20, 1, 2, 3), "bank": (9, -2, 1, 0), "general": (1, 2, -1, 3), "yaw_3_4_5": (2, 0, 0, 1)}
+
+
+def _m(q):
+    return build.models.q_to_matrix(tuple(Fraction(v) for v in q))
+
+
+def _mv(M, v):
+    return [M[i][0] * v[0] + M[i][1] * v[1] + M[i][2] * v[2] for i in range(3)]
+
+
+def _mm(A, B):
+    return [[A[i][0] * B[0][j] + A[i][1] * B[1][j] + A[i][2] * B[2][j] for j in range(3)] for i in range(3)]
+
+
+def interp_tilted(ego_rot, rot_a, rot_b, rot_c):
+    """Ego-frame objects seen from an ego whose attitude has pitch / roll (a slope, a banked road): the ego keeps its
+    attitude and translates; object a is in both neighbours with an unchanged heading, b only in the earlier, c only in
+    the later one.  Every rotation is exact; the oracle works on the global poses R_e p + t_e and R_e R_o."""
+    T1, T2 = 1_000_000, 1_100_000
+    q = integer("query", T1, T2 - 1)
+    tol = 200_000
+    Re = _m(TILTS[ego_rot])
+    e1 = [real("ego1_x", -100, 100), 20.0, 1.0]
+    e2 = [real("ego2_x", -100, 100), 21.0, 1.5]
+    pa1 = [real("a1_x", -50, 50), real("a1_y", -50, 50), 0.5]
+    pa2 = [real("a2_x", -50, 50), real("a2_y", -50, 50), 0.25]
+    pb, pc = [3.0, real("b_y", -50, 50), 0.0], [real("c_x", -50, 50), -4.0, 0.75]
+    B = FrameID.BASE_LINK
+    f1 = FrameGroundTruth(T1, "0", [_obj("a", B, pa1, build.mkrot(TILTS[rot_a]), T1), _obj("b", B, pb, build.mkrot(TILTS[rot_b]), T1)],
+                          transforms=[_ego(e1, TILTS[ego_rot])])
+    f2 = FrameGroundTruth(T2, "1", [_obj("a", B, pa2, build.mkrot(TILTS[rot_a]), T2), _obj("c", B, pc, build.mkrot(TILTS[rot_c]), T2)],
+                          transforms=[_ego(e2, TILTS[ego_rot])])
+    res = get_interpolated_now_frame([f1, f2], q, tol)
+    parts = {"interpolated_frame": res is not None and res is not f1 and res is not f2}
+    if parts["interpolated_frame"]:
+        alpha = (q - T1) / (T2 - T1)
+        got = {o.uuid: o for o in res.objects}
+        parts["objects_kept"] = sorted(got) == ["a", "b", "c"] and len(res.objects) == 3
+        parts["stamped_with_query_time"] = L.close(res.unix_time, q, 0)
+
+        def glob(p, e):
+            return [x + t for x, t in zip(_mv(Re, p), e)]
+
+        def pose_is(o, pos, R):
+            M = o.state.orientation.rotation_matrix
+            return L.And(*[L.close(g, w, 1e-7) for g, w in zip(o.state.position, pos)],
+                         *[L.close(M[i][j], R[i][j], 1e-7) for i in range(3) for j in range(3)])
+
+        if parts["objects_kept"]:
+            g1, g2 = glob(pa1, e1), glob(pa2, e2)
+            parts["a_on_segment_with_its_heading"] = L.And(
+                got["a"].frame_id == "map", pose_is(got["a"], [u + (v - u) * alpha for u, v in zip(g1, g2)], _mm(Re, _m(TILTS[rot_a]))))
+            parts["b_kept_at_its_global_pose"] = pose_is(got["b"], glob(pb, e1), _mm(Re, _m(TILTS[rot_b])))
+            parts["c_kept_at_its_global_pose"] = pose_is(got["c"], glob(pc, e2), _mm(Re, _m(TILTS[rot_c])))
+        ego = res.transforms[EGO2MAP]
+        parts["ego_on_segment_with_its_attitude"] = L.And(
+            *[L.close(g, a + (b - a) * alpha, 1e-7) for g, a, b in zip(ego.position, e1, e2)],
+            *[L.close(ego.rotation.rotation_matrix[i][j], Re[i][j], 1e-7) for i in range(3) for j in range(3)])
+    return Out(parts=parts, obs={"kind": "interp" if parts["interpolated_frame"] else "other",
+                                 "n": len(res.objects) if res is not None else -1})
+
+
 def obligations(pid, tier):
     quick = tier == "quick"
     ns = [1, 2, 3] if quick else [1, 2, 3, 4, 5]
@@ -257,6 +320,13 @@ def obligations(pid, tier):
                    cases=[dict(pattern=p, mode=m, obj_frame=fr) for p in patterns for m in modes
                           for fr in (("map", "base_link") if (not quick or p == patterns[1]) else ("map",))],
                    desc="interpolated frame: query stamp, straight segment / shortest arc, appear/disappear, neighbours kept"),
+        Obligation("interp_tilted", interp_tilted, extras=_extras,
+                   cases=[dict(ego_rot=e, rot_a=a, rot_b=b, rot_c=c) for e, a, b, c in
+                          ([("slope", "yaw_3_4_5", "general", "bank"), ("general", "bank", "yaw_3_4_5", "slope")] if quick else
+                           [("slope", "yaw_3_4_5", "general", "bank"), ("general", "bank", "yaw_3_4_5", "slope"),
+                            ("bank", "general", "slope", "yaw_3_4_5"), ("yaw_3_4_5", "slope", "bank", "general")])],
+                   desc="ego-frame objects under an ego attitude with pitch/roll (exact 3-D rotations): global poses of kept "
+                        "and interpolated objects, ego pose on the segment"),
     ]
 
 
@@ -271,9 +341,11 @@ def meta(pid):
         "bounds": {"quick": "lookup/gating: 1..3 frames, strictly increasing symbolic integer timestamps, symbolic query and "
                             "tolerance; interpolation: 3 frames at fixed stamps (100 ms / 250 ms apart), <= 2 objects per "
                             "frame with 5 appear/disappear patterns, either query time symbolic (poses concrete) or poses "
-                            "symbolic (query on a 5-point grid incl. both neighbour stamps)",
+                            "symbolic (query on a 5-point grid incl. both neighbour stamps); tilted ego attitude (exact 3-D rotations) "
+                            "with ego-frame objects, symbolic positions and query time",
                    "thorough": "1..5 frames; additionally poses and query time symbolic at once (non-linear)"},
-        "outside": ["slerp of rotations with roll/pitch", "raw sensor data copying", "unordered frame lists",
+        "outside": ["slerp between two *distinct* rotations with roll/pitch (3-D rotations are covered where the interpolated "
+                    "heading is an end point: unchanged heading, objects present in one neighbour, constant ego attitude)", "raw sensor data copying", "unordered frame lists",
                     "2-D objects (interpolate_dynamic_object2d)"],
         "stand_ins": ["pyquaternion -> Rot (angle mode; slerp = shortest-arc linear interpolation of the yaw)",
                       "interp_gating: interpolate_ground_truth_frames replaced by a recorder (recorded cut)",
